@@ -201,7 +201,7 @@ class Recfile(object):
         if self.mode not in ["r", "r+", "w", "w+"]:
             raise ValueError("bad mode: '%s'" % self.mode)
 
-        if self.mode == "r+" and not os.path.exists(filename):
+        if self.mode == "r+" and not os.path.exists(self.filename):
             raise RuntimeError("opened with 'r+' but file does not exist")
 
         if self.mode[0] == "r":
@@ -234,7 +234,7 @@ class Recfile(object):
             )
         else:
             self.robj = records.Records(
-                filename,
+                self.filename,
                 mode=self.mode,
                 delim=self.delim,
                 bracket_arrays=self.bracket_arrays,
